@@ -65,6 +65,7 @@ func VerifC20() {
 		{1, 0, 1, 0, 1, 0}, // Close races with the remote's close
 		{1, 0, 1, 0, 0, 1}, // Close races with PeerConnection.Close
 		{0, 1, 0, 0, 0, 1}, // opening races with PeerConnection.Close
+		{0, 0, 1, 0, 0, 1}, // never opened: Close races with PeerConnection.Close
 		{1, 0, 2, 1, 0, 0}, // GracefulClose races with Close
 		{0, 1, 2, 0, 1, 0}, // opening, GracefulClose and the remote's close
 		{1, 0, 2, 0, 1, 1}, // GracefulClose, remote close and PeerConnection.Close
